@@ -9,6 +9,7 @@ Local Open Scope string_scope.
 
 Record sid := mkSid { s_string : string; s_type : string; s_fields : dict string }.
 
+Definition truthy (s : string) : bool := negb (sempty s).
 Definition empty_sid : sid := mkSid "" "" [].
 Definition untyped (s : string) : sid := mkSid s "" [].
 
@@ -108,6 +109,8 @@ Definition sid_of_string (input : string) : outcome sid :=
                       end in
   do res <- sid_to_dict str ty_in;
   let (ty, fields) := match res with Some (t, d) => (t, d) | None => ("", []) end in
+  if truthy query && truthy str && (match fields with [] => true | _ => false end)
+  then Ok (mkSid (str ++ "?" ++ query) "" []) else
   if sempty query then Ok (mkSid str ty fields)
   else do '(s', t', f') <- apply_query str query ty fields; Ok (mkSid s' t' f').
 
@@ -168,7 +171,6 @@ Definition path_to_dict (path : string) (config : string) : outcome (option (str
       end
   end.
 
-Definition truthy (s : string) : bool := negb (sempty s).
 
 Definition dict_to_path (data : dict string) (ty : string) (config : string) : outcome string :=
   match data with
